@@ -316,7 +316,7 @@ impl Sub for Chain {
         "chain"
     }
     fn rule(&self) -> &'static str {
-        "count matrix (M 0..30, cells 0..1000, both alphabets) x pseudocounts (scalar, per-symbol, or built for a scalar and then overwritten in place through AsMut) x background (uniform / from counts / dyadic, zero entries, non-zero wildcard) x second background x base {2,10,e,3.7,...}; to_freq, to_weight, to_scoring (one-step and two-step), to_scoring_with_base, rescale, min_score/max_score compared with the f64 definitions (tolerance 1e-5 relative); rows with zero total are excluded; non-trivial = M >= 2 and (non-uniform background or per-symbol pseudocounts or base != 2)"
+        "count matrix (M 0..30, cells 0..1000, both alphabets) x pseudocounts (scalar, per-symbol, or built for a scalar and then overwritten in place through AsMut) x background (uniform / from counts / dyadic, zero entries, non-zero wildcard, one symbol counted 1..3 times among billions) x second background x base {2,10,e,3.7,...}; to_freq, to_weight, to_scoring (one-step and two-step), to_scoring_with_base, rescale, min_score/max_score compared with the f64 definitions (tolerance 1e-5 relative); rows with zero total are excluded; non-trivial = M >= 2 and (non-uniform background or per-symbol pseudocounts or base != 2)"
     }
     fn cases(&self, tier: Tier) -> u64 {
         tier.pick(60_000, 1_500_000)
@@ -351,6 +351,7 @@ impl Sub for Chain {
         let m = case.counts.len();
         info.nontrivial = m >= 2 && (case.bg != BgSpec::Uniform || matches!(case.pseudo, Pseudo::PerSymbol(_) | Pseudo::InPlace(..)) || case.base.0 != 2.0);
         info.class_if(matches!(case.pseudo, Pseudo::InPlace(..)), "pseudocounts-overwritten-in-place");
+        info.class_if(bg_freqs(case.abc, &case.bg).iter().any(|&x| x > 0.0 && x < f32::EPSILON), "background-entry-below-f32-epsilon");
         info.class_if(case.abc == Abc::Protein, "protein");
         info.class_if(case.abc == Abc::Dna, "dna");
         let f1 = bg_freqs(case.abc, &case.bg);
